@@ -418,6 +418,78 @@ func runC13(o Opts) *Result {
 			break
 		}
 	}
+	// ---- directed: the order of the records in a dump must not decide whether the restored cache knows that expirations
+	// were set. Sharded maps dump shard by shard, so keys placed in distinct shards come out in shard order: a never-expiring
+	// entry first / last, long-expired ones in between, restored into an UnlimitedTTL target, then one cleanup cycle (C11).
+	if o.Only < 0 {
+		ctx := context.Background()
+		for _, kind := range []string{"sharded", "shardedOf"} {
+			for _, neverPos := range []string{"first", "last"} {
+				byShard := map[uint64][]byte{}
+				for i := 0; len(byShard) < 4 && i < 4000; i++ {
+					k := []byte(fmt.Sprintf("order-%s-%d", kind, i))
+					sh := xxhash.Sum64(k) % 128
+					if _, ok := byShard[sh]; !ok {
+						byShard[sh] = k
+					}
+				}
+				shs := []uint64{}
+				for sh := range byShard {
+					shs = append(shs, sh)
+				}
+				sort.Slice(shs, func(a, b int) bool { return shs[a] < shs[b] })
+				mkU := func() xcache {
+					return newX(kind, func(c *cache.Config) {
+						c.TimeToLive = cache.UnlimitedTTL
+						c.ExpirationJitter = -1
+						c.DeleteExpiredAfter = time.Millisecond
+					})
+				}
+				src := mkU()
+				never := byShard[shs[0]]
+				if neverPos == "last" {
+					never = byShard[shs[len(shs)-1]]
+				}
+				for _, sh := range shs {
+					k := byShard[sh]
+					if string(k) == string(never) {
+						src.Write(ctx, k, 7)
+					} else {
+						src.Write(cache.WithTTL(ctx, -time.Hour, false), k, 8)
+					}
+				}
+				var buf bytes.Buffer
+				if _, err := src.Dump(&buf); err != nil {
+					continue
+				}
+				dst := mkU()
+				n, err := dst.Restore(&buf)
+				res.Evaluations++
+				res.count("directed-restore-order:" + kind + ":" + neverPos)
+				if err != nil || n != len(shs) {
+					res.Violations = append(res.Violations, Violation{Property: "C13", Kind: "monitor", Sig: "xfer:restore-count:" + kind,
+						Detail: fmt.Sprintf("%s: Restore of a %d-entry dump returned (%d, %v)", kind, len(shs), n, err), Replay: map[string]interface{}{"engine": "xfer", "profile": "c13", "scenario": "directed restore order"}})
+					continue
+				}
+				time.Sleep(3 * time.Millisecond)
+				dst.Cleanup()
+				left, haveNever := 0, false
+				for _, e := range dst.Walk() {
+					if e.Key == string(never) {
+						haveNever = true
+					} else {
+						left++
+					}
+				}
+				if left != 0 || !haveNever {
+					res.Violations = append(res.Violations, Violation{Property: "C11", Kind: "monitor", Sig: "xfer:cleanup-after-restore-order:" + kind,
+						Detail: fmt.Sprintf("%s, UnlimitedTTL target, dump with the never-expiring entry %s and %d entries expired for an hour: after Restore and one cleanup cycle %d long-expired entries remain (never-expiring entry present: %v)", kind, neverPos, len(shs)-1, left, haveNever),
+						Replay: map[string]interface{}{"engine": "xfer", "profile": "c13", "scenario": "directed restore order", "backend": kind, "never_expiring_entry": neverPos}})
+				}
+				res.TracesValidated++
+			}
+		}
+	}
 	res.DistinctNontrivial = len(uniq)
 	return res
 }
